@@ -341,11 +341,15 @@ extern "C" __attribute__((noinline)) void h_mempool() {
   auto& A1 = *new ATV(); auto& A2 = *new ATV();
   uint32_t natv = verif_choice(1, 2);
   if (natv == 2) makeValidATVPair(w, 2, 2, 1, 2, A1, A2); else A1 = makeValidATV(w, 2, 2, 1);   // in VBK 3
-  mineVbk(w, 3); mineVbk(w, 4); mineVbk(w, 5);                      // VBK 4, 5, 6
+  bool withVtb = verif_cbool();
+  auto& V = *new VTB();
+  if (withVtb) V = makeValidVTB(w, 2, 3, 1, 7); else mineVbk(w, 3);  // VBK 4 (the containing block of a VTB, or a plain block)
+  mineVbk(w, 4); mineVbk(w, 5);                                      // VBK 5, 6
   ValidationState st;
   verif_check(mp.submit<VbkBlock>(w.vbkById[2], true, st).isValid(), 2);
   verif_check(mp.submit<ATV>(A1, true, st).isValid(), 3);
   if (natv == 2) verif_check(mp.submit<ATV>(A2, true, st).isValid(), 4);
+  if (withVtb) { verif_check(mp.submit<VTB>(V, true, st).isValid(), 10); verif_cover(3); }   // the stale relation of VBK 4 holds a VTB
   checkViews(mp, 100);
   PopData pd; for (int v = 2; v <= 6; v++) pd.context.push_back(w.vbkById[v]);
   addAltHeader(w, 3, 2);
